@@ -653,6 +653,28 @@ func (cfg *Config) wordFields(wps []syntax.WordPart) ([][]fieldPart, error) {
 		fields = append(fields, curField)
 		curField = nil
 	}
+	// wsDelim records that the last field was ended by IFS whitespace,
+	// so a non-whitespace IFS character that follows belongs to the same delimiter.
+	wsDelim := false
+	// delimit ends the current field at the IFS character r,
+	// following the field splitting rules in POSIX 2.6.5.
+	delimit := func(r rune) {
+		switch {
+		case len(curField) > 0:
+			flush()
+			wsDelim = cfg.ifsWhitespace(r)
+		case cfg.ifsWhitespace(r):
+			// Leading or repeated IFS whitespace is ignored.
+		case wsDelim:
+			// IFS whitespace followed by one non-whitespace IFS character
+			// is a single delimiter.
+			wsDelim = false
+		default:
+			// Any other non-whitespace IFS character delimits a field,
+			// even if that field is empty.
+			fields = append(fields, nil)
+		}
+	}
 	splitAdd := func(val string) {
 		fieldStart := -1
 		for i, r := range val {
@@ -661,8 +683,9 @@ func (cfg *Config) wordFields(wps []syntax.WordPart) ([][]fieldPart, error) {
 					curField = append(curField, fieldPart{val: val[fieldStart:i]})
 					fieldStart = -1
 				}
-				flush()
+				delimit(r)
 			} else {
+				wsDelim = false
 				if fieldStart < 0 { // starting a new field
 					fieldStart = i
 				}
@@ -747,9 +770,17 @@ func (cfg *Config) wordFields(wps []syntax.WordPart) ([][]fieldPart, error) {
 				// Unquoted "*" or "@" expansions produce one field per
 				// element; joining and re-splitting them would lose
 				// fields when IFS is empty.
+				// The elements are separated like Bash does, as if by the first
+				// IFS character, so that they split as a whole: with IFS=":",
+				// the parameters "a" "" "b" result in an empty field in the middle.
+				sep, _ := utf8.DecodeRuneInString(cfg.ifs)
 				for j, elem := range elems {
 					if j > 0 {
-						flush()
+						if cfg.ifs == "" {
+							flush()
+						} else {
+							delimit(sep)
+						}
 					}
 					splitAdd(elem)
 				}
